@@ -35,7 +35,7 @@ func init() {
 	}
 	h.Register(&h.Prop{
 		ID:   "C12",
-		Rule: "cases: per entry point (sess xpub gdkg dkgs stage dpk tobig qloop rsign subm b32 crseed dec dpipe rid disp conn conns mdisp listen serf inv) structured messages with every field nil/empty/short/long/identity/out-of-range singly (quick) and in pairs (thorough), each followed by a valid message to the same handler; fz* = arbitrary bytes to the packet decoder, the handshake, sealed deal plaintexts, share sets and documents/selectors to dataParse (oracle only: no panic, no hang); non-trivial = at least one field of the case is not the honest value (or the line is a fuzz case); distinct = distinct case line",
+		Rule: "cases: per entry point (sess xpub gdkg dkgs stage dpk tobig qloop rsign subm b32 crseed chain chainraw bootips dec dpipe rid disp conn conns mdisp listen serf inv) structured messages with every field nil/empty/short/long/identity/out-of-range singly (quick) and in pairs (thorough), each followed by a valid message to the same handler; fz* = arbitrary bytes to the packet decoder, the handshake, sealed deal plaintexts, share sets and documents/selectors to dataParse (oracle only: no panic, no hang); non-trivial = at least one field of the case is not the honest value (or the line is a fuzz case); distinct = distinct case line",
 		Gen:  gen,
 		Exec: execParent,
 	})
@@ -100,6 +100,7 @@ var pkgName = map[string]string{
 	"github.com/DOSNetwork/core/p2p":                "p2p",
 	"github.com/DOSNetwork/core/p2p/discover":       "discover",
 	"github.com/DOSNetwork/core/dosnode":            "dosnode",
+	"github.com/DOSNetwork/core/onchain":            "onchain",
 }
 
 var frameRe = regexp.MustCompile(`^(github\.com/DOSNetwork/core/[A-Za-z0-9_/]+)\.(.+)$`)
@@ -262,6 +263,13 @@ func execParent(line string) (res h.Result) {
 		// fz* cases have no model: the compared line is constant, the observation is in the oracle and the class
 		if strings.HasPrefix(line, "fz") {
 			res.Impl = "nopanic"
+		}
+		// a payload with a nil *big.Int field handed to onchainLoop by the chain double: outside what the chain side
+		// can deliver (the ABI decoder fills every integer; theorem translated_events_wellformed). The handlers have no
+		// nil checks, the model says so, and these cases only confirm that model and code agree on WHERE it breaks.
+		if strings.HasPrefix(line, "chain ") && strings.Contains(line, "nil") {
+			res.Oracle = ""
+			res.Class = "chain-nilfield"
 		}
 	}()
 	op := strings.Fields(line)[0]
